@@ -878,7 +878,7 @@ theorem no_parking_after_eof {s : St} (h : Reachable s) (he : s.eof = true ∨ s
 /-- a thread in the wait-set of a closed connection always has a wake-up on its way: an ENABLED thread that
 is the receive-lock holder (it will release and notify), a pending notifier, or the holder of the condition's
 lock that the notifier is waiting for -/
-theorem waiter_has_waker_after_close {s : St} (h : Reachable s) (hc : s.closed = true) (t : Tid)
+theorem waiter_has_waker {s : St} (h : Reachable s) (hc : s.chan ≠ [] ∨ s.eof = true ∨ s.closed = true) (t : Tid)
     (ht : t ∈ s.waiters) :
     ∃ u, enabled s u = true ∧ ((s.loc u).pc.holdsRecv = true ∨ (s.loc u).pc = .n0 ∨ (s.loc u).pc = .n1 ∨
       (s.loc u).pc.holdsCond = true) := by
@@ -887,13 +887,19 @@ theorem waiter_has_waker_after_close {s : St} (h : Reachable s) (hc : s.closed =
   rcases hL.wake (.inl ⟨t, ht⟩) with h1 | ⟨u, hu | hu⟩
   · cases hr : s.recvLock with
     | none => exact absurd hr h1
-    | some v => exact ⟨v, (enabled_recvHolder hL hD (.inr (.inr hc)) hr).1, .inl ((hL.recv_iff v).mpr hr)⟩
+    | some v => exact ⟨v, (enabled_recvHolder hL hD hc hr).1, .inl ((hL.recv_iff v).mpr hr)⟩
   · cases hcl : s.condLock with
     | none => exact ⟨u, enabled_of_condFree hcl (.inr (.inr hu)), .inr (.inl hu)⟩
     | some v =>
       have hv := (hL.cond_iff v).mpr hcl
       exact ⟨v, enabled_of_free hD (free_of_holdsCond hv), .inr (.inr (.inr hv))⟩
   · exact ⟨u, enabled_of_free hD (by rw [hu]; rfl), .inr (.inr (.inl hu))⟩
+
+theorem waiter_has_waker_after_close {s : St} (h : Reachable s) (hc : s.closed = true) (t : Tid)
+    (ht : t ∈ s.waiters) :
+    ∃ u, enabled s u = true ∧ ((s.loc u).pc.holdsRecv = true ∨ (s.loc u).pc = .n0 ∨ (s.loc u).pc = .n1 ∨
+      (s.loc u).pc.holdsCond = true) :=
+  waiter_has_waker h (.inr (.inr hc)) t ht
 
 /-- if data is pending in the channel and some thread is inside a call or a serving loop, some thread
 has an enabled step -/
